@@ -718,7 +718,19 @@ func streamCHist(c *Ctx) {
 				t := c.rng.Bytes(n)
 				writes = append(writes, t)
 				before := css.Count()
-				c.emit("css write "+hx(t), okErr(css.WriteTx(t)))
+				// every other history hands the splitter a buffer the caller reuses at once: ranges and
+				// shares must not depend on the caller's slice after WriteTx has returned (seeded change C12-O)
+				arg := t
+				if i%2 == 0 {
+					arg = append(make([]byte, 0, n+8), t...)
+				}
+				werr := css.WriteTx(arg)
+				if i%2 == 0 {
+					for x := range arg {
+						arg[x] ^= 0xA5
+					}
+				}
+				c.emit("css write "+hx(t), okErr(werr))
 				desc += fmt.Sprintf("w%d ", n)
 				// C13 after any history: a counter fed the same writes reports the splitter's share count and
 				// increment, whatever exports and counts happened in between
